@@ -134,10 +134,21 @@ def system_objects(system):
     return order
 
 
+def _rank(o):
+    """position of the object's class in the canonical computation order (upstream first)"""
+    from efootprint.core.all_classes_in_order import CANONICAL_COMPUTATION_ORDER
+    if not isinstance(o, ModelingObject):
+        return 99
+    for i, c in enumerate(CANONICAL_COMPUTATION_ORDER):
+        if isinstance(getattr(o, "_value", o), c):
+            return i
+    return 98
+
+
 def compare_systems(ctx, objs_a, objs_b, label, names=None, skip=()):
     """Every calculated attribute of every same-named object physically equal."""
     ok = True
-    for name, oa in objs_a.items():
+    for name, oa in sorted(objs_a.items(), key=lambda kv: _rank(kv[1])):
         if not isinstance(oa, ModelingObject) or name not in objs_b:
             continue
         if names is not None and name not in names:
